@@ -14,10 +14,14 @@ import vf
 
 SPECDIR = os.path.join(vf.SPEC, "math")
 THREADS = [1, 2, 3, 4, 7, 8, 16]
+# larger, non-power-of-two pool sizes (more threads than cores is fine for rayon) for the scenarios whose
+# transforms run the concurrent code (domain >= 1024): hand-rolled batch arithmetic such as
+# n / num_batches only shows its remainder when the thread count does not divide the size
+EXTRA_THREADS = [38, 41, 76, 96]
 
 META = dict(
     technique="TLA+ definition of the transform over toy prime fields (TLC computes complete / sampled expected outputs, Generate->Replay); real generic FFT code instantiated over the same fields, serial build and concurrent build under 7 rayon pool sizes",
-    text="evaluate_poly, evaluate_poly_with_offset, interpolate_poly(_with_offset), infer_degree, serial_fft, get_(inv_)twiddles (length), permute_index / FftInputs::permute, the [[E;K]] row implementation and shift_by(_series) are compared with TLC-computed values for sizes 2..32 (all unit vectors => every vector by linearity, every blowup, 4 offsets, 3 extension degrees) and sizes 64..8192 over F_40961 (crossing the 512 recursion switch and the 1024 concurrency threshold); the concurrent build is run with 1,2,3,4,7,8,16 threads and must return exactly the same values.",
+    text="evaluate_poly, evaluate_poly_with_offset, interpolate_poly(_with_offset), infer_degree, serial_fft, get_(inv_)twiddles (length), permute_index / FftInputs::permute, the [[E;K]] row implementation and shift_by(_series) are compared with TLC-computed values for sizes 2..32 (all unit vectors => every vector by linearity, every blowup, 4 offsets, 3 extension degrees) and sizes 64..8192 over F_40961 (crossing the 512 recursion switch and the 1024 concurrency threshold); the concurrent build is run with 1,2,3,4,7,8,16 threads (and 38,41,76,96 threads for every scenario whose domain is >= 1024) and must return exactly the same values.",
     note="Toy fields stand in for the production fields (generic code; field arithmetic itself is C10). Dense vectors above FullUpTo are checked at sampled output indices plus the interpolate(evaluate(c)) = c round trip; the rayon scheduler is sampled, not enumerated (see spec/math/Chunking.tla for the design-level schedule argument). Twiddle content is undocumented and not gated (only its length and that FFTs using it are correct).",
     design="7/C12")
 
@@ -108,14 +112,23 @@ def run(ck, tier):
     ck.require(s1["concurrent"] is False, "the serial binary was built with the concurrent feature")
     s2 = replay_scenarios(ck, conc, "concurrent", sc, THREADS, "concurrent")
     ck.require(s2["concurrent"] is True and s2["runs"] == len(THREADS), "the concurrent binary did not run all pools")
+    wide = [s for s in sc if s["fam"] in ("full", "sampled") and s["n"] * s["blowup"] >= 1024]
+    ck.require(len(wide) >= 60 and all(any(s["n"] == n for s in wide) for n in (1024, 2048, 4096, 8192)),
+               "too few scenarios reach the concurrent code paths: %d" % len(wide))
+    s3 = replay_scenarios(ck, conc, "concurrent-many", wide, EXTRA_THREADS, "concurrent-many-threads")
+    ck.require(s3["concurrent"] is True and s3["runs"] == len(EXTRA_THREADS), "the concurrent binary did not run the large pools")
     if thorough:
+        # the permute model with the batch count NOT rounded up to a power of two: expected violations
+        for cfgname, inv in (("MCChunking_permfound_partition.cfg", "Partition"), ("MCChunking_permfound_final.cfg", "Final")):
+            rf = vf.tlc("Chunking.tla", cfgname, cwd=SPECDIR, workers=2, timeout=600)
+            ck.part("design:" + cfgname, expected_violation=inv, reproduced=(not rf.ok and inv in (rf.error or "")), tlc_states=rf.distinct)
         # debug assertions and overflow checks on (the configuration `cargo test` uses)
         replay_scenarios(ck, vf.build_harness("math", profile="dev"), "serial-dev", sc, [], "serial-dev")
         replay_scenarios(ck, vf.build_harness("math", variant="concurrent", profile="dev"), "concurrent-dev", sc, [2, 8], "concurrent-dev")
     ck.bounds = {"design": "Chunking.tla: all interleavings of permute / shift batches, n <= 20 (40 thorough), threads 1..16",
                  "small": "n in 2..32, N = n*blowup <= 32 (F_97) / <= 256 (F_257), cfg " + cfg,
                  "big": "n in 64..8192 over F_40961, N <= 8192",
-                 "grid": "all 91 pairs n = 2^a >= 2, blowup = 2^b, n*blowup <= 8192 over F_40961", "threads": THREADS}
+                 "grid": "all 91 pairs n = 2^a >= 2, blowup = 2^b, n*blowup <= 8192 over F_40961", "threads": THREADS, "extra_threads_for_domains_ge_1024": EXTRA_THREADS}
     ck.exhaustive = False
     ck.assumptions = ["toy field types implement FieldP.tla's arithmetic and get_root_of_unity returns RootOfUnity(P, k) (a wrong root shows up as a mismatch)",
                       "the OS/rayon schedules met during the runs are a sample; schedule-independence of the chunking design is model-checked separately (Chunking.tla)",
